@@ -342,6 +342,56 @@ pub fn run_c08(c: &C08Case) -> Outcome {
     Outcome::pass(any_pending, classes)
 }
 
+/// The observed endpoint (side 0) accepts bind requests (queue of ONE) but its application never asks for them; the peer sends three: the
+/// first fills the queue, the second parks the receive loop on the hand-over, the third stays unread. The endpoint has a bind request and
+/// a stream request of its own pending. Then the peer goes silent and the keepalive expires (variant 1: the endpoint's own sink stalls as
+/// well): the connection has to end although the receive loop is parked and unread requests remain, and everything pending resolves.
+pub const BIND_QUEUE_FULL_CASES: u64 = 2 * 2 * 2;
+pub fn bind_queue_full_case(i: u64) -> Case {
+    let stalled = i % 2 == 1;
+    let nbinds = 3 + (i / 2) % 2;
+    let own_stream = i / 4 == 1;
+    let mut binds: Vec<BindSpec> = (0..nbinds).map(|k| BindSpec { side: 1, dgram: k % 2 == 1, host: b"q".to_vec(), port: 10 + k as u16, delay: 0 }).collect();
+    binds.push(BindSpec { side: 0, dgram: false, host: b"mine".to_vec(), port: 3, delay: 0 });
+    let mut events = vec![];
+    if stalled {
+        events.push(RawEvent { when: Trigger::Quiescent, what: What::Wedge { side: 0 } });
+    }
+    events.push(RawEvent { when: Trigger::Quiescent, what: What::Blackhole { side: 1 } });
+    for _ in 0..6 {
+        events.push(RawEvent { when: Trigger::Quiescent, what: What::Tick });
+    }
+    let streams = if own_stream { vec![StreamSpec { side: 0, port: 1, pad: vec![], delay: 0, park: None, cancel: None, ends: [EndScript { w: vec![WOp::Write(2)], r: vec![ROp::ToEof(8)] }, EndScript { w: vec![], r: vec![ROp::Read(4), ROp::Park(1)] }] }] } else { vec![] };
+    Case {
+        opts: [OptsSpec { bind_buf: 1, ..OptsSpec::default() }, OptsSpec { bind_buf: 2, ..OptsSpec::default() }],
+        streams,
+        binds,
+        // side 0: binds accepted by the endpoint, never taken by the application; side 1: takes the request and holds it
+        bind_policy: [BindPolicy { enabled: false, ..BindPolicy::default() }, BindPolicy { answers: vec![BindAnswer::Hold], batch: 1, order: vec![], enabled: true, ping_first: false }],
+        keepalive: [true, false],
+        keepalive_timeout_ticks: 2,
+        events,
+        ..Case::default()
+    }
+}
+pub fn run_bind_queue_full(case: &Case) -> Outcome {
+    let run = run_case(case);
+    FAULT_RUNS.fetch_add(1, Ordering::Relaxed);
+    if !run.quiescent {
+        return Outcome::inconclusive("step bound");
+    }
+    let stalled = case.events.iter().any(|e| matches!(e.what, What::Wedge { .. }));
+    // the family is about a parked receive loop: the second Bind of the peer was received but the third was not dispatched
+    let shown = run.events.iter().filter(|e| matches!(&e.ev, Ev::Recv { side: 0, msg: WMsg::Frame(RFrame::Bind { .. }) })).count();
+    match teardown_oracle(case, &run, if stalled { 12 } else { 11 }, false) {
+        Err((sig, msg)) => Outcome::violation(format!("{sig}:bind-queue-full"), format!("the endpoint's bind queue (size 1) was full and its application does not take bind requests; {shown} Bind frames of the peer had been read when the peer went silent and the keepalive expired: {msg}")),
+        Ok(p) => {
+            FAULT_RUNS_PENDING.fetch_add(u64::from(p), Ordering::Relaxed);
+            Outcome::pass(p, vec!["keepalive-expiry-with-a-full-bind-queue"])
+        }
+    }
+}
+
 /// directed: a pending open on its last retry at teardown must see Closed
 fn last_retry_case(i: u64) -> C08Case {
     let retries = 1 + (i % 3) as usize;
@@ -371,6 +421,7 @@ pub fn c08(ctx: &Ctx, rep: &mut Report) {
     let t = ctx.tier;
     ctx.prop(rep, "cut-points", t.pick(1_500, 30_000), 20, || c08_base().prop_map(|base| C08Case { base, only: None }), run_c08);
     ctx.enumerate(rep, "last-retry-at-teardown", 12 * 14, 10, last_retry_case, run_c08);
+    ctx.enumerate(rep, "bind-queue-full-at-connection-end", BIND_QUEUE_FULL_CASES, 4, bind_queue_full_case, run_bind_queue_full);
     // the keepalive expires: the peer goes silent at step k (with or without the endpoint's own sink stalling at the same moment),
     // virtual time passes, and the keepalive timeout (2 intervals) must end the connection and resolve everything that is pending
     ctx.enumerate(
